@@ -614,6 +614,9 @@ class StateEngine(object):
 
         state_machine_type = state_machine.get("type")
         if state_machine_type == "STANDARD":
+            # A failed execution logs nothing above, so the record may still be
+            # missing (lost on restart if not persisted).
+            self.restore_lost_execution(execution_arn)
             execution_detail = self.executions[execution_arn]
             state_machine_arn = execution_detail["stateMachineArn"]
         else:
@@ -739,6 +742,39 @@ class StateEngine(object):
 
         self.broadcast_notification(execution_arn, execution_detail, context)
 
+    def restore_lost_execution(self, execution_arn):
+        """
+        self.executions.get(execution_arn) == None should only really happen if
+        the StateEngine has failed and been restarted and we are handling a
+        redelivered message. When we add code IDC to persist execution metadata
+        state we should hopefully be able to avoid the following condition upon
+        StateEngine restart.
+        """
+        if self.executions.get(execution_arn) == None:
+            self.logger.warning(
+                "StateEngine: Execution {} does not "
+                "exist, probably due to StateEngine restart. Some history "
+                "metadata has been lost!".format(execution_arn))
+
+            # Derive missing fields from execution_arn
+            split = execution_arn.rpartition(':')
+            arn = parse_arn(split[0])
+            arn["resource_type"] = "stateMachine"
+            state_machine_arn = create_arn(arn)
+            name = split[2]
+
+            self.executions[execution_arn] = {
+                "executionArn": execution_arn,
+                "input": None,
+                "name": name,
+                "output": None,
+                "startDate": time.time(),
+                "stateMachineArn": state_machine_arn,
+                "status": "RUNNING",
+                "stopDate": None,
+            }
+            self.execution_history[execution_arn] = []
+
     def update_execution_history(
             self, state_machine, execution_arn, update_type, details
         ):
@@ -845,37 +881,7 @@ class StateEngine(object):
         if state_machine_type == "EXPRESS":
             return
 
-        """
-        self.executions.get(execution_arn) == None should only really happen if
-        the StateEngine has failed and been restarted and we are handling a
-        redelivered message. When we add code IDC to persist execution metadata
-        state we should hopefully be able to avoid the following condition upon
-        StateEngine restart.
-        """
-        if self.executions.get(execution_arn) == None:
-            self.logger.warning(
-                "StateEngine: update_execution_history: Execution {} does not "
-                "exist, probably due to StateEngine restart. Some history "
-                "metadata has been lost!".format(execution_arn))
-
-            # Derive missing fields from execution_arn
-            split = execution_arn.rpartition(':')
-            arn = parse_arn(split[0])
-            arn["resource_type"] = "stateMachine"
-            state_machine_arn = create_arn(arn)
-            name = split[2]
-
-            self.executions[execution_arn] = {
-                "executionArn": execution_arn,
-                "input": None,
-                "name": name,
-                "output": None,
-                "startDate": time.time(),
-                "stateMachineArn": state_machine_arn,
-                "status": "RUNNING",
-                "stopDate": None,
-            }
-            self.execution_history[execution_arn] = []
+        self.restore_lost_execution(execution_arn)
 
         history = self.execution_history[execution_arn]
         """
